@@ -1,0 +1,113 @@
+//go:build verif
+
+// Contracts for package pmm, read as text by /verif/engine (govc); no code.
+
+package pmm
+
+//@ mode bv
+
+// ---- bitmaps -----------------------------------------------------------------------
+// c = contents of the allocation unit holding a bitmap, base = byte offset of word 0.
+// Bit i of the bitmap is bit 63-(i&63) of word i>>6; 1 = reserved, 0 = free.
+//@ spec wordAt(c arr[uint64], base uintptr, w uint64) uint64 = at(c, base + uintptr(w)*8)
+//@ spec bitOf(c arr[uint64], base uintptr, i uint64) uint64 = (wordAt(c, base, i>>6) >> (63 - (i&63))) & 1
+// cnt(c, base, k) = number of free (clear) bits among bits 0..k-1
+//@ ufun cnt(c arr[uint64], base uintptr, k uint64) uint64
+//@ axiom cnt0(c arr[uint64], base uintptr): cnt(c, base, 0) == 0
+//@ axiom cntS(c arr[uint64], base uintptr, k uint64): cnt(c, base, k+1) == cnt(c, base, k) + (1 - bitOf(c, base, k))
+
+//@ lemma cntLe(c arr[uint64], base uintptr, k uint64): cnt(c, base, k) <= k
+//@   by induction k
+//@   using cnt0(c, base); cntS(c, base, k)
+//@   property C01 C03
+
+// no free bit among the first k  <==>  the count is zero
+//@ lemma cntZero(c arr[uint64], base uintptr, k uint64): cnt(c, base, k) == 0 <==> forall(i, uint64, i < k ==> bitOf(c, base, i) == 1)
+//@   by induction k
+//@   using cnt0(c, base); cntS(c, base, k); cntLe(c, base, k)
+//@   property C01 C03
+
+// two bitmaps that agree on the first k bits have the same count
+//@ lemma cntSame(c arr[uint64], d arr[uint64], base uintptr, dbase uintptr, k uint64): forall(i, uint64, i < k ==> bitOf(c, base, i) == bitOf(d, dbase, i)) ==> cnt(c, base, k) == cnt(d, dbase, k)
+//@   by induction k
+//@   using cnt0(c, base); cnt0(d, dbase); cntS(c, base, k); cntS(d, dbase, k)
+//@   property C01 C03
+
+// flipping exactly bit j (j < k) changes the count by one
+//@ lemma cntFlip(c arr[uint64], d arr[uint64], base uintptr, j uint64, k uint64): j < k && bitOf(c, base, j) != bitOf(d, base, j) && forall(i, uint64, i < k && i != j ==> bitOf(c, base, i) == bitOf(d, base, i)) ==> cnt(d, base, k) + bitOf(d, base, j) == cnt(c, base, k) + bitOf(c, base, j)
+//@   by induction k
+//@   using cnt0(c, base); cnt0(d, base); cntS(c, base, k); cntS(d, base, k); cntSame(c, d, base, base, k)
+//@   property C01 C03
+
+// ---- pools ---------------------------------------------------------------------------
+//@ spec pool(a *BitmapAllocator, i int) *framePool = &a.pools[i]
+//@ spec nfr(p *framePool) uint64 = uint64(p.endFrame - p.startFrame) + 1
+//@ spec bmc(p *framePool) arr[uint64] = contents(p.freeBitmap)
+//@ spec bmb(p *framePool) uintptr = dataptr(p.freeBitmap)
+//@ pred inPool(p *framePool, f mm.Frame) = f >= p.startFrame && f <= p.endFrame
+// held(p, f): frame f of pool p is not available for hand-out (its bit is set)
+//@ pred held(p *framePool, f mm.Frame) = bitOf(bmc(p), bmb(p), uint64(f - p.startFrame)) == 1
+//@ pred wfPool(p *framePool) = p.startFrame <= p.endFrame && p.endFrame < 0x10000000000000 && uint64(p.endFrame - p.startFrame) < 0xffffffff && !isnil(p.freeBitmap) && len(p.freeBitmap) >= 0 && len(p.freeBitmap) < 0x4000000 && uint64(len(p.freeBitmap))*64 >= nfr(p) && bmb(p) < 0x1000000000000 && uint64(p.freeCount) == cnt(bmc(p), bmb(p), nfr(p))
+// pools are ordered by frame number, and their bitmaps do not share storage
+//@ pred apart(p *framePool, q *framePool) = p.endFrame < q.startFrame && (!sameobj(p.freeBitmap, q.freeBitmap) || bmb(p) + uintptr(len(p.freeBitmap))*8 <= bmb(q) || bmb(q) + uintptr(len(q.freeBitmap))*8 <= bmb(p))
+//@ pred wfAlloc(a *BitmapAllocator) = a != nil && len(a.pools) >= 0 && len(a.pools) < 0x100000 && forall(i, int, 0 <= i && i < len(a.pools) ==> wfPool(pool(a, i))) && forall(i, int, j, int, 0 <= i && i < j && j < len(a.pools) ==> apart(pool(a, i), pool(a, j)))
+
+//@ func (alloc *BitmapAllocator) poolForFrame(frame mm.Frame) (r int)
+//@   property C01 C03
+//@   requires alloc != nil && len(alloc.pools) >= 0 && len(alloc.pools) < 0x100000
+//@   ensures found: r >= 0 ==> r < len(alloc.pools) && inPool(pool(alloc, r), frame)
+//@   ensures none: r < 0 ==> r == -1 && forall(i, int, 0 <= i && i < len(alloc.pools) ==> !inPool(pool(alloc, i), frame))
+//@   loop 1 (range alloc.pools) invariant rangeindex >= -1 && rangeindex < len(alloc.pools) && forall(i, int, 0 <= i && i <= rangeindex ==> !inPool(pool(alloc, i), frame))
+
+// bit g of pool q / the free counter of pool q are what they were at entry
+//@ pred bitSame(a *BitmapAllocator, q int, g uint64) = bitOf(bmc(pool(a, q)), bmb(pool(a, q)), g) == old(bitOf(bmc(pool(a, q)), bmb(pool(a, q)), g))
+//@ pred cntSamePool(a *BitmapAllocator, q int) = pool(a, q).freeCount == old(pool(a, q).freeCount)
+//@ pred unchanged(a *BitmapAllocator) = a.reservedPages == old(a.reservedPages) && forall(q, int, 0 <= q && q < len(a.pools) ==> cntSamePool(a, q)) && forall(q, int, g, uint64, 0 <= q && q < len(a.pools) && g < nfr(pool(a, q)) ==> bitSame(a, q, g))
+// everything except bit (i, f) and the counter of pool i is as at entry
+//@ pred othersSame(a *BitmapAllocator, i int, f mm.Frame) = forall(q, int, 0 <= q && q < len(a.pools) && q != i ==> cntSamePool(a, q)) && forall(q, int, g, uint64, 0 <= q && q < len(a.pools) && g < nfr(pool(a, q)) && !(q == i && g == uint64(f - pool(a, i).startFrame)) ==> bitSame(a, q, g))
+// the pool table itself (frame ranges, bitmap slices) never changes after Init
+//@ pred layoutSame(a *BitmapAllocator) = a.pools == old(a.pools) && forall(q, int, 0 <= q && q < len(a.pools) ==> pool(a, q).startFrame == old(pool(a, q).startFrame) && pool(a, q).endFrame == old(pool(a, q).endFrame) && pool(a, q).freeBitmap == old(pool(a, q).freeBitmap))
+
+//@ func (alloc *BitmapAllocator) FreeFrame(frame mm.Frame) (err *kernel.Error)
+//@   property C01 C03 C09
+//@   requires wfAlloc(alloc) && alloc.mutex.state == 0
+//@   modifies alloc.mutex.state, alloc.reservedPages, framePool.freeCount, elems(uint64)
+//@   guard alloc.mutex.state == 1 : framePool.freeCount, elems(uint64), BitmapAllocator.reservedPages
+//@   ensures unlocked: alloc.mutex.state == 0
+//@   ensures layout: layoutSame(alloc)
+//@   ensures wfp: forall(i, int, 0 <= i && i < len(alloc.pools) ==> wfPool(pool(alloc, i)))
+//@   ensures wfa: forall(i, int, j, int, 0 <= i && i < j && j < len(alloc.pools) ==> apart(pool(alloc, i), pool(alloc, j)))
+//@   ensures wf: wfAlloc(alloc)
+//@   ensures notManaged: forall(i, int, 0 <= i && i < len(alloc.pools) ==> !inPool(pool(alloc, i), frame)) ==> err == errBitmapAllocFrameNotManaged && unchanged(alloc)
+//@   ensures doubleFree: forall(i, int, 0 <= i && i < len(alloc.pools) && inPool(pool(alloc, i), frame) && !old(held(pool(alloc, i), frame)) ==> err == errBitmapAllocDoubleFree && unchanged(alloc))
+//@   ensures freed: forall(i, int, 0 <= i && i < len(alloc.pools) && inPool(pool(alloc, i), frame) && old(held(pool(alloc, i), frame)) ==> err == nil && !held(pool(alloc, i), frame) && pool(alloc, i).freeCount == old(pool(alloc, i).freeCount) + 1 && alloc.reservedPages == old(alloc.reservedPages) - 1 && othersSame(alloc, i, frame))
+//@   at return 2: inst poolIndex
+//@   at return 3: inst poolIndex
+//@   at return 3: use cntFlip(old(bmc(pool(alloc, poolIndex))), bmc(pool(alloc, poolIndex)), bmb(pool(alloc, poolIndex)), uint64(relFrame), nfr(pool(alloc, poolIndex)))
+//@   at return 3: use forall(q, int, cntSame(old(bmc(pool(alloc, q))), bmc(pool(alloc, q)), bmb(pool(alloc, q)), bmb(pool(alloc, q)), nfr(pool(alloc, q))))
+//@   at return 3: use cntLe(bmc(pool(alloc, poolIndex)), bmb(pool(alloc, poolIndex)), nfr(pool(alloc, poolIndex)))
+
+//@ func (alloc *BitmapAllocator) AllocFrame() (f mm.Frame, err *kernel.Error)
+//@   property C01 C03 C09
+//@   requires wfAlloc(alloc) && alloc.mutex.state == 0
+//@   modifies alloc.mutex.state, alloc.reservedPages, framePool.freeCount, elems(uint64)
+//@   guard alloc.mutex.state == 1 : framePool.freeCount, elems(uint64), BitmapAllocator.reservedPages
+//@   ensures unlocked: alloc.mutex.state == 0
+//@   ensures layout: layoutSame(alloc)
+//@   ensures wfp: forall(i, int, 0 <= i && i < len(alloc.pools) ==> wfPool(pool(alloc, i)))
+//@   ensures wfa: forall(i, int, j, int, 0 <= i && i < j && j < len(alloc.pools) ==> apart(pool(alloc, i), pool(alloc, j)))
+//@   ensures wf: wfAlloc(alloc)
+//@   ensures oom: err != nil ==> f == mm.InvalidFrame && err == errBitmapAllocOutOfMemory && unchanged(alloc) && forall(q, int, 0 <= q && q < len(alloc.pools) ==> pool(alloc, q).freeCount == 0)
+//@   ensures managed: err == nil ==> exists(i, int, 0 <= i && i < len(alloc.pools) && inPool(pool(alloc, i), f))
+//@   ensures fresh: err == nil ==> forall(i, int, 0 <= i && i < len(alloc.pools) && inPool(pool(alloc, i), f) ==> !old(held(pool(alloc, i), f)) && held(pool(alloc, i), f))
+//@   ensures counts: err == nil ==> forall(i, int, 0 <= i && i < len(alloc.pools) && inPool(pool(alloc, i), f) ==> pool(alloc, i).freeCount == old(pool(alloc, i).freeCount) - 1 && alloc.reservedPages == old(alloc.reservedPages) + 1)
+//@   ensures others: err == nil ==> forall(i, int, 0 <= i && i < len(alloc.pools) && inPool(pool(alloc, i), f) ==> othersSame(alloc, i, f))
+//@   loop 1 (poolIndex < len(alloc.pools)) invariant 0 <= poolIndex && poolIndex <= len(alloc.pools) && forall(q, int, 0 <= q && q < poolIndex ==> pool(alloc, q).freeCount == 0)
+//@   loop 2 (range alloc.pools[poolIndex].freeBitmap) invariant rangeindex >= -1 && rangeindex < len(pool(alloc, poolIndex).freeBitmap) && forall(w, int, 0 <= w && w <= rangeindex ==> pool(alloc, poolIndex).freeBitmap[w] == 0xffffffffffffffff)
+//@   loop 3 (mask > 0) invariant 0 <= blockOffset && blockOffset <= 64 && mask == ite(blockOffset == 64, 0, uint64(1) << (63 - uint64(blockOffset))) && block | (uint64(0xffffffffffffffff) >> uint64(blockOffset)) == 0xffffffffffffffff
+//@   loop 1 backedge use cntZero(bmc(pool(alloc, poolIndex-1)), bmb(pool(alloc, poolIndex-1)), nfr(pool(alloc, poolIndex-1)))
+//@   at return 2: inst poolIndex
+//@   at return 2: use cntZero(old(bmc(pool(alloc, poolIndex))), bmb(pool(alloc, poolIndex)), nfr(pool(alloc, poolIndex)))
+//@   at return 2: use uint64((blockIndex<<6)+blockOffset) < nfr(pool(alloc, poolIndex))
+//@   at return 2: use cntFlip(old(bmc(pool(alloc, poolIndex))), bmc(pool(alloc, poolIndex)), bmb(pool(alloc, poolIndex)), uint64((blockIndex<<6)+blockOffset), nfr(pool(alloc, poolIndex)))
+//@   at return 2: use forall(q, int, cntSame(old(bmc(pool(alloc, q))), bmc(pool(alloc, q)), bmb(pool(alloc, q)), bmb(pool(alloc, q)), nfr(pool(alloc, q))))
